@@ -73,8 +73,7 @@ PROPS = {    "C01": {
         "streams": [S("verify", 60, 2500)],
         "rule": VERIFY_RULE,
         "partial": "SHA3/Ed25519/PoW hash, the embedded method table (plasma, ValidateSendBlock) and the regeneration of "
-                   "contract blocks are oracle facts supplied by the harness from the real functions; completeness is shown on "
-                   "three honest instances, not as a general theorem; descendant blocks of receive type are outside the model "
+                   "contract blocks are oracle facts supplied by the harness from the real functions; descendant blocks of receive type are outside the model "
                    "(MODEL-GAP, never produced by the node); that the regenerated descendant blocks pass the nine checks "
                    "is assumed (they are the node's own), that they are the ones kept is an AST fact (fix 48b97c9, F20b)",
         "assumptions": ["SHA3-256 and Ed25519 are oracle booleans (hash matches, signature verifies, key maps to address)",
